@@ -30,6 +30,16 @@ use radicle::storage::git::{Repository, Storage};
 use radicle::storage::WriteRepository as _;
 use radicle_cob::object::{Commit, Reference};
 
+/// A peer that attaches a signature which does not cover the change it publishes (signed by the recorded
+/// key, but over other bytes): `Entry::valid_signatures()` is false for the stored change.
+pub struct Forger<'a>(pub &'a Device<MockSigner>);
+
+impl radicle::crypto::signature::Signer<radicle::crypto::ssh::ExtendedSignature> for Forger<'_> {
+    fn try_sign(&self, _msg: &[u8]) -> Result<radicle::crypto::ssh::ExtendedSignature, radicle::crypto::signature::Error> {
+        radicle::crypto::signature::Signer::<radicle::crypto::ssh::ExtendedSignature>::try_sign(self.0, b"something else entirely")
+    }
+}
+
 pub const N_ACTORS: usize = 4;
 pub const TS_BASE: u64 = 1_700_000_000;
 
@@ -72,23 +82,23 @@ impl World {
     }
 
     /// Store one change commit.
-    pub fn store(&mut self, actor: usize, tips: Vec<Oid>, ts: u64, actions: Vec<Action>) -> Result<Oid, String> {
+    pub fn store(&mut self, actor: usize, tips: Vec<Oid>, ts: u64, actions: Vec<Action>, forged: bool) -> Result<Oid, String> {
         self.counter += 1;
         let contents =
             NonEmpty::from_vec(actions.iter().map(|a| cob::store::encoding::encode(a).unwrap()).collect::<Vec<_>>()).unwrap();
         std::env::set_var("GIT_COMMITTER_DATE", (TS_BASE + ts).to_string());
-        let r = self.repo.store(
-            Some(self.identity_root),
-            vec![],
-            &self.actors[actor],
-            cob::change::Template {
-                type_name: cob::issue::TYPENAME.clone(),
-                tips,
-                embeds: vec![],
-                contents,
-                message: format!("verif change #{}", self.counter),
-            },
-        );
+        let template = cob::change::Template {
+            type_name: cob::issue::TYPENAME.clone(),
+            tips,
+            embeds: vec![],
+            contents,
+            message: format!("verif change #{}", self.counter),
+        };
+        let r = if forged {
+            self.repo.store(Some(self.identity_root), vec![], &Forger(&self.actors[actor]), template)
+        } else {
+            self.repo.store(Some(self.identity_root), vec![], &self.actors[actor], template)
+        };
         std::env::remove_var("GIT_COMMITTER_DATE");
         r.map(|e| e.id).map_err(|e| e.to_string())
     }
@@ -101,6 +111,8 @@ pub struct Ch {
     /// `None` = the commit that is not a change
     pub parents: Vec<Option<usize>>,
     pub kind: String,
+    /// stored with a signature that does not verify (kind written with a trailing `!`)
+    pub forged: bool,
 }
 
 pub fn parse_refs(s: &str, sep: char) -> Option<Vec<Option<usize>>> {
@@ -132,7 +144,8 @@ pub fn parse_changes(s: &str) -> Option<Vec<Ch>> {
         if actor >= N_ACTORS || parents.iter().any(|p| matches!(p, Some(j) if *j >= i)) {
             return None;
         }
-        let kind = f[3].to_string();
+        let forged = f[3].ends_with('!');
+        let kind = f[3].trim_end_matches('!').to_string();
         let known = if i == 0 { kind == "r" } else { KINDS_OK.contains(&kind.as_str()) || KINDS_BAD.contains(&kind.as_str()) };
         if !known {
             return None;
@@ -144,7 +157,7 @@ pub fn parse_changes(s: &str) -> Option<Vec<Ch>> {
         if kind == "bl" && actor != 0 {
             return None;
         }
-        out.push(Ch { actor, ts: f[1].parse().ok()?, parents, kind });
+        out.push(Ch { actor, ts: f[1].parse().ok()?, parents, kind, forged });
     }
     if out.is_empty() { None } else { Some(out) }
 }
@@ -153,6 +166,9 @@ pub fn parse_changes(s: &str) -> Option<Vec<Ch>> {
 /// model use this only to know what to expect)?
 pub fn accepted(chs: &[Ch], i: usize) -> bool {
     let c = &chs[i];
+    if c.forged {
+        return false;
+    }
     match c.kind.as_str() {
         "r" | "c" => true,
         "e" => c.actor == chs[0].actor || c.actor == 0,
@@ -162,6 +178,8 @@ pub fn accepted(chs: &[Ch], i: usize) -> bool {
 }
 
 pub struct Built {
+    /// `Entry::valid_signatures()` of every stored change, as computed by the real code on the loaded commit
+    pub sig: Vec<bool>,
     pub oids: Vec<Oid>,
     /// rank of each change's oid among the oids of the case
     pub ord: Vec<usize>,
@@ -194,12 +212,23 @@ pub fn build(w: &mut World, chs: &[Ch]) -> Result<Built, String> {
             "bl" => vec![Action::Label { labels: BTreeSet::from([label(&format!("l{i}"))]) }, bad_title("a\rb")],
             _ => return Err("kind".into()),
         };
-        oids.push(w.store(c.actor, tips, c.ts, actions)?);
+        oids.push(w.store(c.actor, tips, c.ts, actions, c.forged)?);
     }
     let mut sorted = oids.clone();
     sorted.sort();
     let ord = oids.iter().map(|o| sorted.iter().position(|x| x == o).unwrap()).collect();
-    Ok(Built { oids, ord })
+    let sig = oids.iter().map(|o| w.repo.load(*o).map(|e| e.valid_signatures()).unwrap_or(false)).collect();
+    Ok(Built { sig, oids, ord })
+}
+
+/// The tokens computed by the real code that are appended to the case text: order of the oids and the
+/// signature bit of every change.
+pub fn facts(b: &Built) -> String {
+    format!(
+        "ord={} sig={}",
+        b.ord.iter().map(|x| x.to_string()).collect::<Vec<_>>().join(","),
+        b.sig.iter().map(|x| if *x { '1' } else { '0' }).collect::<String>()
+    )
 }
 
 pub fn refs_of(w: &World, b: &Built, tips: &[Option<usize>]) -> Vec<Reference> {
@@ -342,7 +371,7 @@ pub fn show_changes(chs: &[Ch]) -> String {
     chs.iter()
         .map(|c| {
             let ps: Vec<String> = c.parents.iter().map(|p| p.map(|j| j.to_string()).unwrap_or("x".into())).collect();
-            format!("{}:{}:{}:{}", c.actor, c.ts, if ps.is_empty() { "-".into() } else { ps.join("+") }, c.kind)
+            format!("{}:{}:{}:{}{}", c.actor, c.ts, if ps.is_empty() { "-".into() } else { ps.join("+") }, c.kind, if c.forged { "!" } else { "" })
         })
         .collect::<Vec<_>>()
         .join(";")
@@ -351,7 +380,7 @@ pub fn show_changes(chs: &[Ch]) -> String {
 /// Random history: mostly linear with concurrent branches and merges, timestamps from a tiny domain so
 /// that ties are frequent, and also going backwards.
 pub fn gen_changes(rng: &mut verif_common::Rng, n: usize, bad_rate: u64, dangling: bool) -> Vec<Ch> {
-    let mut chs = vec![Ch { actor: rng.below(N_ACTORS as u64) as usize, ts: rng.below(3), parents: vec![], kind: "r".into() }];
+    let mut chs = vec![Ch { actor: rng.below(N_ACTORS as u64) as usize, ts: rng.below(3), parents: vec![], kind: "r".into(), forged: false }];
     let mut tips: Vec<usize> = vec![0];
     for i in 1..=n {
         let mut parents: Vec<Option<usize>> = match rng.below(6) {
@@ -402,7 +431,9 @@ pub fn gen_changes(rng: &mut verif_common::Rng, n: usize, bad_rate: u64, danglin
             tips.retain(|t| t != p);
         }
         tips.push(i);
-        chs.push(Ch { actor, ts: rng.below(4), parents, kind });
+        // a badly signed change (of any kind), at any position: one in eight when rejections are wanted
+        let forged = bad_rate > 0 && rng.chance(1, 8);
+        chs.push(Ch { actor, ts: rng.below(4), parents, kind, forged });
     }
     chs
 }
